@@ -20,6 +20,7 @@ import (
 	"os"
 	"path/filepath"
 	"runtime"
+	"runtime/debug"
 	"sort"
 	"strconv"
 	"strings"
@@ -1655,7 +1656,17 @@ func TestCheck(t *testing.T) {
 			r.Inconclusive(fmt.Sprintf("case %s: crash point not reached (%s)", c.name, c.points))
 			allReached = false
 		}
-		evaluate(r, c)
+		func() {
+			// an oracle panic on one recorded history must not end the run silently: that history is reported as undecided
+			defer func() {
+				if p := recover(); p != nil {
+					path := r.SaveWitness("oracle-panic-"+strings.ReplaceAll(c.name, "/", "_"), "oracle panic", map[string]any{"case": c.name, "scenario": sc, "ledger": c.lines, "panic": fmt.Sprint(p), "stack": string(debug.Stack())})
+					r.Inconclusive(fmt.Sprintf("case %s: the oracle panicked on this history (%v); history saved at %s", c.name, p, path))
+					allReached = false
+				}
+			}()
+			evaluate(r, c)
+		}()
 		persistentDeliveries := 0
 		for _, l := range c.lines {
 			if l.f[0] == "recv" {
